@@ -64,6 +64,7 @@ def verify_one(job):
             from pyvc.heapvc import HeapEngine, HeapVerifier
             ex = HeapEngine(prog, dsl.REGISTRY, dsl.SPEC_SOURCES)
             fv = HeapVerifier(ex, fi, c, timeout_s=job['timeout_s'], solvers=job['solvers'])
+        fv.ob_filter = job.get('ob_filter')
         obs = fv.run()
         out['paths'] = fv.paths
         for ob in obs:
@@ -205,12 +206,13 @@ def main(argv=None):
     ded = [d if isinstance(d, dict) else {'fid': d} for d in getattr(spec, 'DEDUCTIVE', [])]
     ded = [d for d in ded if args.only in d['fid']]
     jobs = [{'fid': d['fid'], 'contract_modules': spec.CONTRACT_MODULES, 'mode': d.get('mode', 'pure'),
-             'timeout_s': d.get('timeout_s', timeout_s), 'solvers': solvers} for d in ded]
+             'timeout_s': d.get('timeout_s', timeout_s), 'solvers': solvers,
+             'ob_filter': getattr(spec, 'OBLIGATION_FILTER', None)} for d in ded]
     results = []
     if jobs:
         from pyvc import prelude
         run.assumptions.extend(prelude.ASSUMPTIONS)
-        with multiprocessing.Pool(min(8, len(jobs))) as pool:
+        with multiprocessing.Pool(min(getattr(spec, 'POOL', 8), len(jobs))) as pool:
             results = pool.map(verify_one, jobs)
     proved_names = []
     lost = []
